@@ -405,3 +405,26 @@ def simulate_behaviours(module, cfg, num, depth, seed, name=None, timeout=300, w
             behs.append(beh)
     shutil.rmtree(d, ignore_errors=True)
     return behs, r
+
+
+def repeat_failing(ctx, module, cfg, traces, metas, verdicts, which, rerun, name, ok=("ok", "DRIFT")):
+    """Real-process scenarios depend on the wall clock; a verdict must not depend on how busy the machine was.  Every
+    scenario run k in `which` whose verdict is not in `ok` is run once more with the same arguments (rerun(k) ->
+    (trace, meta)) and judged again: it stays reported only if it fails both times (with the trace of the second run);
+    otherwise a note is left.  traces / metas / verdicts are updated in place."""
+    again = [k for k in which if verdicts[k][0] not in ok and not str(verdicts[k][0]).startswith("drift")]
+    if not again:
+        return
+    new = []
+    for k in again:
+        new.append(rerun(k))
+    v2, _ = validate_batch(module, cfg, [t for t, _ in new], name=name + "_again")
+    passed = 0
+    for k, (t2, m2), (vv, st) in zip(again, new, v2):
+        if vv in ok or str(vv).startswith("drift"):
+            ctx.notes.append("%s: scenario run %d failed once (%s) and passed when repeated: not reported" % (name, k, verdicts[k][0]))
+            verdicts[k] = ("ok", 0)
+            passed += 1
+        else:
+            traces[k], metas[k], verdicts[k] = t2, m2, (vv, st)
+    ctx.coverage.setdefault("real_scenarios_repeated", {})[name] = {"repeated": len(again), "passed_when_repeated": passed}
